@@ -237,6 +237,10 @@ func c19Body(c *c19Case, o *c19Obs) func() {
 				// size-weighted sizer, min_size just below max_size: a chunk of 3 items weighs 35
 				qc.QueueSize, qc.Sizer = 1000, request.SizerTypeBytes
 				qc.Batch = &queuebatch.BatchConfig{FlushTimeout: time.Hour, MinSize: 38, MaxSize: 39}
+			case strings.HasPrefix(c.Config, "queue+bigbatch"):
+				// batches may be larger than the whole queue (max_size > queue_size): the queue's capacity is what was configured
+				qc.QueueSize, qc.Sizer = 4, request.SizerTypeItems
+				qc.Batch = &queuebatch.BatchConfig{FlushTimeout: time.Hour, MinSize: 2, MaxSize: 7}
 			case strings.HasPrefix(c.Config, "queue+batch"):
 				qc.QueueSize, qc.Sizer = 100, request.SizerTypeItems
 				qc.Batch = &queuebatch.BatchConfig{FlushTimeout: time.Hour, MinSize: 2, MaxSize: 3}
@@ -366,7 +370,7 @@ func TestVerifC19(t *testing.T) {
 		return
 	}
 	outAlpha := []string{"ok", "transient", "permanent", "partial"}
-	configs := []string{"noqueue", "noqueue+retry", "queue10", "queue1+retry", "queue1+cancelled-caller", "queue+batch", "queue+batch+retry", "queue+wbatch", "persistent+retry"}
+	configs := []string{"noqueue", "noqueue+retry", "queue10", "queue1+retry", "queue1+cancelled-caller", "queue+batch", "queue+batch+retry", "queue+wbatch", "queue+bigbatch", "persistent+retry"}
 	sizes := []int{1, 2, 5}
 	bound := ctx.Param("bound", 0)
 	maxReq := ctx.Param("requests", 2)
